@@ -55,6 +55,16 @@ class HubStream(HistStream):
                 for _ in range(120 if tier == "quick" else 1500)]
 
 
+class MultiLinkStream(HistStream):
+    """a structure linked TWICE to the same neighbour, with a link to a third structure declared in between; the
+    neighbour is removed or cut, then the structure itself is cut / removed / re-added, and the circuit solved"""
+    name = "multilink"
+
+    def generate(self, rng, tier):
+        return [wirelib.gen_history(rng, nstruct=rng.randint(3, 4), scenario="multilink")
+                for _ in range(80 if tier == "quick" else 1000)]
+
+
 def m_readd_after_cut(st, d, v):
     return False
 
@@ -67,7 +77,7 @@ TRUSTED = [
 ]
 
 if __name__ == "__main__":
-    main("C07", [HistStream(), HubStream()],
+    main("C07", [HistStream(), HubStream(), MultiLinkStream()],
          level_text="props/C07.v: the invariant relating the solver's tables (connections, connections_list, free_pins) to the "
                     "present structures is preserved by every operation, hence holds after every history; free pins are exactly "
                     "the unconnected pins of the remaining components. The tie replays random add/connect/cut/remove/re-add/"
